@@ -1,0 +1,28 @@
+//go:build verif
+
+package verifhook
+
+import "sync/atomic"
+
+// Handler is invoked at every point reached while it is installed. name
+// identifies the point, key identifies the object the point belongs to (a
+// queue, a tree node, a subscription request, a target name, ...).
+type Handler func(name string, key interface{})
+
+var handler atomic.Pointer[Handler]
+
+// Set installs h as the handler of all points; nil removes the handler.
+func Set(h Handler) {
+	if h == nil {
+		handler.Store(nil)
+		return
+	}
+	handler.Store(&h)
+}
+
+// Point calls the installed handler, if any.
+func Point(name string, key interface{}) {
+	if h := handler.Load(); h != nil {
+		(*h)(name, key)
+	}
+}
